@@ -284,7 +284,11 @@ void World::CheckInterrupt(const InvRecord& r) {
     // stopped: every running non-console command gets the signal
     if (!x.console && !x.killed && r.alive_at_exit.count(x.pid))
       Report("C07", "interrupt_cleanup", "statement " + S(x.stmt) + " was still running when the interrupted ninja exited and was never signalled");
-    if (r.plan.on_signal == 2) continue;   // a child that ignores the signal may write after ninja is gone
+    // ninja waits for every command it has signalled (a command that handles or
+    // ignores the signal may still write while shutting down), so nothing is
+    // running any more when it looks at the outputs, let alone when it exits
+    if (r.alive_at_exit.count(x.pid) && r.res.end == ProcResult::kExit)
+      Report("C07", "interrupt_cleanup", "the interrupted ninja exited while the command of statement " + S(x.stmt) + " was still running: it did not wait for the commands it stopped");
     bool any_modified_left = false;
     for (auto& o : x.outs) {
       auto now = r.outs_at_exit.find(o);
